@@ -42,10 +42,10 @@ func c05RunCase(c *Case) (string, []Fail) {
 }
 
 func c05Gen(g *Gen) {
-	// stop-under-load bursts (kind 3): Z = seed, records, stop after that many chunks were received
-	for i := 0; i < g.Pick(40, 400); i++ {
-		g.Case(3, nil, []int64{int64(g.R.U64() & 0xffffff), int64(60 + g.R.Intn(120)), int64(5 + g.R.Intn(60))})
-		g.Count("burst-stop")
+	// stop-under-load cycles (kind 3): Z = seed, stop/restart cycles, records per cycle
+	for i := 0; i < g.Pick(6, 40); i++ {
+		g.Case(3, nil, []int64{int64(g.R.U64() & 0xffffff), 40, int64(20 + g.R.Intn(40))})
+		g.Count("burst-stop-cycles")
 	}
 	n := g.Pick(24, 300)
 	for i := 0; i < n; i++ {
@@ -291,65 +291,70 @@ func c05TraceCase(z []int64) (string, []Fail) {
 	return fmt.Sprintf("%s,ord=%d", out, ord), fails
 }
 
-// c05BurstCase: one connection, one pipeline, a burst of single-record chunks towards a healthy upstream; the agent
-// is stopped as soon as the upstream has received a given number of chunks (i.e. while the window still holds
-// chunks and the client is transmitting), restarted, and everything left in the queue directory is delivered.
-// The first deliveries must be in arrival order.  (Records not yet read when the stop arrives are out of scope.)
+// c05BurstCase: many stop/restart cycles of one agent under load.  Per cycle: a new connection sends a burst of
+// single-record chunks (one pipeline) to a healthy upstream; the agent is stopped as soon as the upstream has
+// received a few chunks of the burst - while the window still holds chunks and the client is transmitting - and
+// restarted (what was saved is recovered and delivered together with the next burst).  At the end everything left
+// on disk is delivered.  The first deliveries of every stream must be in arrival order.  (Records not yet read when
+// a stop arrives are out of scope.)
 func c05BurstCase(z []int64) (string, []Fail) {
 	if len(z) != 3 {
 		return "badcase", nil
 	}
-	seed, nrec, stopAfter := int(z[0]), int(z[1]), int(z[2])
-	if nrec < 1 || nrec > 2000 {
+	seed, cycles, nrec := int(z[0]), int(z[1]), int(z[2])
+	if nrec < 1 || nrec > 500 || cycles < 1 || cycles > 200 {
 		return "badcase", nil
 	}
+	harness := func(err error) (string, []Fail) { return "err:harness", []Fail{{"c05:harness", err.Error()}} }
 	dir, err := os.MkdirTemp("", "c05b-")
 	if err != nil {
-		return "err:harness", []Fail{{"c05:harness", err.Error()}}
+		return harness(err)
 	}
 	defer os.RemoveAll(dir)
+	r := NewRng(uint64(seed) ^ 0xC05)
 	p := e2eDefaultParams()
 	p.ChunkMaxRecords = 1
-	p.MemLen = 64
+	p.MemLen = 256 // no spill: at a stop the queue is empty and the window is not
 	p.QueueLen = 4096
 	p.BatchRecords = 1
-	p.AckPending = 1 + seed%4
+	p.AckPending = 2 + seed%8
 	p.PingMs = 50
 	e2eApplyParams(p)
 	tr := newE2ETrace()
 	srv, err := newFakeFluentd("out1", tr)
 	if err != nil {
-		return "err:harness", []Fail{{"c05:harness", err.Error()}}
+		return harness(err)
 	}
 	defer srv.Close()
 	ag, err := e2eNewAgent(e2eConfig{Dir: dir, Keys: []string{"app"}, Outputs: []e2eOutput{{Name: "out1", Addr: srv.Addr(), Mode: c01Modes(seed), MaxBufSize: "1GB"}}}, tr)
 	if err != nil {
-		return "err:harness", []Fail{{"c05:harness", err.Error()}}
+		return harness(err)
 	}
+	for cy := 0; cy < cycles; cy++ {
+		if err := ag.Start(); err != nil {
+			return harness(err)
+		}
+		var recs []e2eRecord
+		for i := 0; i < nrec; i++ {
+			recs = append(recs, e2eMakeRecord(e2eStamp{Conn: cy, Seq: i}, e2eRecordSpec{Class: rcGood, Pri: 14, App: "ka", Source: "x1", Host: "h1", Payload: "burst", TimeIdx: i}))
+		}
+		cl, err := e2eDial(ag.Addr(), cy, tr)
+		if err != nil {
+			return harness(err)
+		}
+		base := len(srv.Chunks())
+		_ = cl.Send(recs, []int{1 << 20})
+		k := 1 + r.Intn(nrec/2)
+		srv.WaitFor(func(ch []*ffChunk) bool { return len(ch) >= base+k }, time.Second)
+		if err := ag.Stop(); err != nil {
+			return "err:stop-hang", []Fail{{"c05:stop-hang", err.Error()}}
+		}
+		cl.Close(false)
+	}
+	// deliver what is left
 	if err := ag.Start(); err != nil {
-		return "err:harness", []Fail{{"c05:harness", err.Error()}}
+		return harness(err)
 	}
-	var recs []e2eRecord
-	for i := 0; i < nrec; i++ {
-		recs = append(recs, e2eMakeRecord(e2eStamp{Conn: 0, Seq: i}, e2eRecordSpec{Class: rcGood, Pri: 14, App: "ka", Source: "x1", Host: "h1", Payload: "burst", TimeIdx: i}))
-	}
-	cl, err := e2eDial(ag.Addr(), 0, tr)
-	if err != nil {
-		return "err:harness", []Fail{{"c05:harness", err.Error()}}
-	}
-	// the first record creates the pipeline and its upstream session
-	_ = cl.Send(recs[:1], nil)
-	srv.WaitFor(func(ch []*ffChunk) bool { return len(ch) >= 1 }, 5*time.Second)
-	_ = cl.Send(recs[1:], []int{1 << 20})
-	srv.WaitFor(func(ch []*ffChunk) bool { return len(ch) >= 1+stopAfter }, 3*time.Second)
-	if err := ag.Stop(); err != nil {
-		return "err:stop-hang", []Fail{{"c05:stop-hang", err.Error()}}
-	}
-	cl.Close(false)
-	if err := ag.Start(); err != nil {
-		return "err:harness", []Fail{{"c05:harness", err.Error()}}
-	}
-	// everything that was saved must be delivered now
 	want := map[e2eStamp]bool{}
 	for _, qf := range ag.QueueFiles("out1") {
 		for _, st := range qf.stamps() {
@@ -362,22 +367,22 @@ func c05BurstCase(z []int64) (string, []Fail) {
 	}
 	var fails []Fail
 	seen := map[e2eStamp]bool{}
-	last := -1
+	last := map[int]int{}
 	for _, c := range srv.Chunks() {
 		for _, st := range c.Stamps() {
 			if seen[st] {
 				continue
 			}
 			seen[st] = true
-			if st.Seq < last {
-				fails = append(fails, Fail{"c05:stream-order", fmt.Sprintf("burst seed %d (%d records, stop after %d chunks): record %s is first delivered (connection %d, chunk %s) after record 0.%d which arrived later",
-					seed, nrec, stopAfter, st, c.Attempt, c.ID, last)})
+			if l, ok := last[st.Conn]; ok && st.Seq < l {
+				fails = append(fails, Fail{"c05:stream-order", fmt.Sprintf("burst seed %d (%d stop/restart cycles, %d records each): record %s is first delivered (upstream connection %d, chunk %s) after record %d.%d which arrived later on the same connection",
+					seed, cycles, nrec, st, c.Attempt, c.ID, st.Conn, l)})
 				if len(fails) > 3 {
 					return "ok:burst", fails
 				}
 			}
-			if st.Seq > last {
-				last = st.Seq
+			if l, ok := last[st.Conn]; !ok || st.Seq > l {
+				last[st.Conn] = st.Seq
 			}
 		}
 	}
